@@ -172,3 +172,17 @@ func tail(s string, n int) string {
 }
 
 func ll(lat, lng float64) s2.Point { return s2.PointFromLatLng(s2.LatLngFromDegrees(lat, lng)) }
+
+// polyLoops returns the vertex loops (one per chain) of a dimension-2 shape.
+func polyLoops(s s2.Shape) [][]s2.Point {
+	var out [][]s2.Point
+	for i := 0; i < s.NumChains(); i++ {
+		ch := s.Chain(i)
+		var v []s2.Point
+		for j := 0; j < ch.Length; j++ {
+			v = append(v, s.Edge(ch.Start+j).V0)
+		}
+		out = append(out, v)
+	}
+	return out
+}
